@@ -5,6 +5,7 @@ package main
 import (
 	"fmt"
 	"math"
+	"math/big"
 	"strconv"
 	"strings"
 	"unicode"
@@ -225,7 +226,9 @@ func emptyItemCases(c *Ctx, i int, g *Gen) {
 			}
 			ev["vars"], ev["bytes"], ev["size"] = vs, bytesJ(it.ToBytes()), it.Size()
 			var m *ast.DataMessage
-			if p, _ := try(func() { m = ast.NewDataMessage("m", 1, 1, 1, "H->E", it).SetSessionIDAndSystemBytes(1, []byte{0, 0, 0, 1}) }); !p && m != nil {
+			if p, _ := try(func() {
+				m = ast.NewDataMessage("m", 1, 1, 1, "H->E", it).SetSessionIDAndSystemBytes(1, []byte{0, 0, 0, 1})
+			}); !p && m != nil {
 				ev["msgbuilt"] = true
 				mv := []interface{}{}
 				for _, n := range m.Variables() {
@@ -253,7 +256,10 @@ func renameEll(t *GItem, from, to string) {
 // valueJ is the abstract form of a fill-in value / constructor argument for format f.
 func valueJ(f string, v interface{}) interface{} {
 	if f == "F4" || f == "F8" {
-		// integer arguments of a float item are converted by Go (rounded to float64, then to the item's width)
+		// integer arguments of a float item: the mathematical value rounded once to the item's width (math/big)
+		if r, ok := floatOfIntJ(v, f); ok {
+			return r
+		}
 		switch x := v.(type) {
 		case int:
 			return floatArgJ(float64(x), f)
@@ -316,6 +322,44 @@ func valueJ(f string, v interface{}) interface{} {
 		return uintJ(x)
 	}
 	panic(fmt.Sprintf("valueJ: %T", v))
+}
+
+// an integer argument of a float item: correctly rounded to the item's width from the exact value, by math/big
+func floatOfIntJ(v interface{}, f string) (J, bool) {
+	bf := new(big.Float).SetPrec(80)
+	switch x := v.(type) {
+	case int:
+		bf.SetInt64(int64(x))
+	case int8:
+		bf.SetInt64(int64(x))
+	case int16:
+		bf.SetInt64(int64(x))
+	case int32:
+		bf.SetInt64(int64(x))
+	case int64:
+		bf.SetInt64(x)
+	case uint:
+		bf.SetUint64(uint64(x))
+	case uint8:
+		bf.SetUint64(uint64(x))
+	case uint16:
+		bf.SetUint64(uint64(x))
+	case uint32:
+		bf.SetUint64(uint64(x))
+	case uint64:
+		bf.SetUint64(x)
+	default:
+		return nil, false
+	}
+	f64, _ := bf.Float64()
+	r := floatArgJ(f64, f)
+	if f == "F4" {
+		f32, _ := bf.Float32()
+		b := math.Float32bits(f32)
+		r["bits"] = []int{int(b >> 24), int(b >> 16 & 255), int(b >> 8 & 255), int(b & 255)}
+		r["txt"] = chars(strconv.FormatFloat(float64(f32), 'g', -1, 32))
+	}
+	return r, true
 }
 
 // a float argument: its exact float64 bit pattern and the pattern after Go's conversion to the target width
@@ -822,6 +866,16 @@ func boundaryInts() [][2]uint64 {
 	}
 	r = append(r, [2]uint64{0, 0}, [2]uint64{0, 1}, [2]uint64{1, 1}, [2]uint64{0, math.MaxUint64}, [2]uint64{0, math.MaxUint64 - 1},
 		[2]uint64{0, 1 << 63}, [2]uint64{1, 1 << 63}, [2]uint64{0, 1<<63 + 1})
+	// integers just beside the midpoint of two neighbouring float32 values, too long for a float64: rounding them to
+	// float64 first lands exactly on the midpoint, and the second rounding then goes the wrong way
+	for _, k := range []uint{54, 60, 62, 63} {
+		u := uint64(1) << (k - 23) // distance of neighbouring float32 values at 2^k
+		up, down := uint64(1)<<k+u/2+1, uint64(1)<<k+u+u/2-1
+		r = append(r, [2]uint64{0, up}, [2]uint64{0, down})
+		if k < 63 {
+			r = append(r, [2]uint64{1, up}, [2]uint64{1, down})
+		}
+	}
 	return r
 }
 
